@@ -278,6 +278,20 @@ class Ctx:
                 sizes.append(payload)
             elif kind == "bytes" and not isinstance(payload[0], int):
                 sizes.append(payload[0])
+        small = self.aux.get("small_ufs")
+        if small:
+            seen = set()
+            stack = list(self.pc)
+            while stack and len(seen) < 20000:
+                t = stack.pop()
+                i = t.get_id()
+                if i in seen:
+                    continue
+                seen.add(i)
+                if z3.is_app(t) and t.num_args() > 0 and t.decl().kind() == z3.Z3_OP_UNINTERPRETED \
+                        and t.decl().name() in small and z3.is_int(t):
+                    sizes.append(t)
+                stack.extend(t.children())
         if not sizes:
             return best
         s.set("timeout", 3000)
